@@ -429,3 +429,22 @@ ADDED17 = {
 for _pid, _extra in ADDED17.items():
     t, text, note, ref = CLAIMED[_pid]
     CLAIMED[_pid] = (t, text + _extra, note, ref)
+
+ADDED18 = {
+ "C01": " Round 18: nothing answers for the if form before its condition is evaluated (C01.falsy); no Go code binds a name the embedded headers define (C01.header-intact).",
+ "C03": " Round 18: C01.order (a try form anywhere in a call form is evaluated once) and C20.apply-verbatim (an error object returned as a value is not thrown) adopted.",
+ "C04": " Round 18: C03.finally-scope adopted (the finally body never runs in a later, possibly nil, value of the scope variable).",
+ "C06": " Round 18: the read-string builtin asks nothing about its text before handing it to the reader (C06.read-string-total).",
+ "C08": " Round 18: no count is compared with a fixed limit in the evaluator and its package keeps no counters (C08.no-budget).",
+ "C09": " Round 18: a lock requirement does not pass through a registered builtin (C09.guard); C20.nil-arg adopted.",
+ "C10": " Round 18: every field of a future written after its construction is guarded by its mutex wherever it is touched (C10.shared); context.WithoutCancel is no child context (C10.ctx).",
+ "C11": " Round 18: positions reachable from shared forms are only read (C17.position-immutable as C11.positions-readonly); C10.readers and C10.outcome-own adopted.",
+ "C12": " Round 18: the value of the defmacro form is the macro it bound (C12.flag).",
+ "C15": " Round 18: AddPreamble prints each entry of the caller's table as it is (C15.value-verbatim).",
+ "C17": " Round 18: GetPosition never answers with the position of a part of the form (C17.own-position).",
+ "C19": " Round 18: no function of the module changes the working directory (C19.process-cwd); C10.outcome-own adopted (C19.future-outcome-own).",
+ "C20": " Round 18: the argument builders refuse a call on the argument count alone (C20.refusal-grounds); the body of a future runs under a child of its creator's context (C10.ctx, C10.body-context as C20.future-*).",
+}
+for _pid, _extra in ADDED18.items():
+    t, text, note, ref = CLAIMED[_pid]
+    CLAIMED[_pid] = (t, text + _extra, note, ref)
